@@ -28,12 +28,10 @@ Qed.
 
 Lemma start_respQ s x s' : apply_start s x = Some s' -> respQ s' = respQ s.
 Proof.
-  destruct x as [a o| |]; cbn; intro Hs.
-  - destruct (get_pend s a); [discriminate|].
-    destruct o; try (injection Hs as <-; destruct a; reflexivity).
-    destruct (svrDone s); [discriminate|]. injection Hs as <-; destruct a; reflexivity.
-  - injection Hs as <-. destruct (cctx s =? 0); reflexivity.
-  - injection Hs as <-. destruct (cctx s =? 0); reflexivity.
+  destruct x as [a o| |]; intro Hs.
+  - destruct (apply_start_call _ _ _ _ Hs) as [_ [-> _]]. destruct a; reflexivity.
+  - cbn in Hs. injection Hs as <-. destruct (cctx s =? 0); reflexivity.
+  - cbn in Hs. injection Hs as <-. destruct (cctx s =? 0); reflexivity.
 Qed.
 
 (* conservation: what was pushed is what was popped followed by what is still queued (FIFO, nothing
@@ -101,25 +99,20 @@ Proof. constructor; cbn; auto; discriminate. Qed.
 
 Lemma inv2_start s x s' : Inv2 s -> apply_start s x = Some s' -> Inv2 s'.
 Proof.
-  intros [A B C] Hs. destruct x as [a o| |]; cbn in Hs.
-  - destruct (get_pend s a); [discriminate|].
-    assert (E : s' = set_pend s a (Some (PStart o))).
-    { destruct o; try (injection Hs as <-; reflexivity). destruct (svrDone s); [discriminate|]. injection Hs as <-; reflexivity. }
-    subst s'. destruct a; constructor; cbn; auto.
-  - injection Hs as <-. destruct (cctx s =? 0); constructor; cbn; auto.
-  - injection Hs as <-. destruct (cctx s =? 0); constructor; cbn; auto.
+  intros [A B C] Hs. destruct x as [a o| |].
+  - destruct (apply_start_call _ _ _ _ Hs) as [_ [-> _]]. destruct a; constructor; cbn; auto.
+  - cbn in Hs. injection Hs as <-. destruct (cctx s =? 0); constructor; cbn; auto.
+  - cbn in Hs. injection Hs as <-. destruct (cctx s =? 0); constructor; cbn; auto.
 Qed.
 
 Lemma bound_start s x s' k : Inv s -> Inv2 s -> bound s k -> apply_start s x = Some s' -> bound s' k.
 Proof.
-  intros I [A B C] Hb Hs. destruct x as [a o| |]; cbn in Hs.
-  - destruct (get_pend s a) eqn:Eg; [discriminate|].
-    assert (E : s' = set_pend s a (Some (PStart o))).
-    { destruct o; try (injection Hs as <-; reflexivity). destruct (svrDone s); [discriminate|]. injection Hs as <-; reflexivity. }
-    subst s'. unfold bound in *. destruct a; cbn in *; try exact Hb.
+  intros I [A B C] Hb Hs. destruct x as [a o| |].
+  - destruct (apply_start_call _ _ _ _ Hs) as [Eg [-> _]].
+    unfold bound in *. destruct a; cbn in *; try exact Hb.
     rewrite Eg in Hb. exact Hb.
-  - injection Hs as <-. unfold bound in *. destruct (cctx s =? 0); cbn; exact Hb.
-  - injection Hs as <-. unfold bound in *. destruct (cctx s =? 0); cbn; exact Hb.
+  - cbn in Hs. injection Hs as <-. unfold bound in *. destruct (cctx s =? 0); cbn; exact Hb.
+  - cbn in Hs. injection Hs as <-. unfold bound in *. destruct (cctx s =? 0); cbn; exact Hb.
 Qed.
 
 (* client steps: the server stream's state and the handler's phase are untouched; a frame may be popped *)
@@ -234,13 +227,10 @@ Qed.
 
 Lemma start_cctx s x s' : apply_start s x = Some s' -> cctx s' = 0 -> cctx s = 0.
 Proof.
-  destruct x as [a o| |]; cbn; intros Hs Hc.
-  - destruct (get_pend s a); [discriminate|].
-    assert (E : s' = set_pend s a (Some (PStart o))).
-    { destruct o; try (injection Hs as <-; reflexivity). destruct (svrDone s); [discriminate|]. injection Hs as <-; reflexivity. }
-    subst s'. destruct a; exact Hc.
-  - injection Hs as <-. destruct (cctx s =? 0) eqn:E; [cbn in Hc; discriminate|exact Hc].
-  - injection Hs as <-. destruct (cctx s =? 0) eqn:E; [cbn in Hc; discriminate|exact Hc].
+  destruct x as [a o| |]; intros Hs Hc.
+  - destruct (apply_start_call _ _ _ _ Hs) as [_ [-> _]]. destruct a; exact Hc.
+  - cbn in Hs. injection Hs as <-. destruct (cctx s =? 0) eqn:E; [cbn in Hc; discriminate|exact Hc].
+  - cbn in Hs. injection Hs as <-. destruct (cctx s =? 0) eqn:E; [cbn in Hc; discriminate|exact Hc].
 Qed.
 
 Lemma app_one_neq {A} (q : list A) f : q ++ [f] <> q.
